@@ -8,7 +8,8 @@ import lib_C18 as L
 
 ID = "C18"
 THEOREM = ("Ufo2ft.C18.C18_all_partial / C18_classes_partial / C18_classes_font / C18_classes_disjoint / C18_carets_partial / "
-           "C18_carets_font_partial / C18_curs / C18_curs_flag / C18_user_left_alone_partial / C18_unnamed_anchor_ignored / "
+           "C18_carets_font_partial / C18_curs / C18_curs_flag / C18_ltr_extras / C18_ltr_extras_mem / C18_seq / runSeq_eq / "
+           "C18_seq_independent / C18_user_left_alone_partial / C18_unnamed_anchor_ignored / "
            "C18_quantize / C18_anchor / C18_categories / C18_pairs / holdsPairs_unique")
 N = {"quick": 420, "thorough": 20000}
 RULE = ("random small fonts (Latin, Arabic, Hebrew, Greek, common-script and unencoded glyphs; ufoLib2/defcon; TTF/OTF) with "
@@ -17,14 +18,22 @@ RULE = ("random small fonts (Latin, Arabic, Hebrew, Greek, common-script and une
         "numbered and .LTR/.RTL suffixed pairs, mixed-direction repertoires, GSUB closure of direction), skipExportGlyphs, user "
         "GDEF blocks (GlyphClassDef / LigatureCaretByPos / ByIndex / neither), user curs feature with and without insertion marker, "
         "writers with a quantization option; compiled through compileTTF/compileOTF and read back from GDEF/GPOS and from the final "
-        "feature text.  Unit streams call _getAnchor/quantize, OpenTypeCategories.load and _getCursiveAnchorPairs directly.  "
+        "feature text.  Multi-font stream (max(40, n/6) cases of 1-3 fonts, one request per compiled font): (seq) several unrelated "
+        "fonts or masters of one family compiled one after the other with the SAME featureWriters list; (interp) "
+        "compileInterpolatableTTFs(ufos, featureWriters=...); (ds) compileInterpolatableTTFs/OTFsFromDS on an in-memory designspace "
+        "with <rule> substitutions (in 3 of 4 cases one rule is the only link between a left-to-right encoded glyph and an unencoded "
+        "alternate carrying unsuffixed cursive anchors; plus random rules: chains, right-to-left sources, unknown names; designspace- "
+        "level skipExportGlyphs); writers are ready-made instances (all four, or Gdef+Curs only, with or without quantization) or "
+        "ufo2ft's defaults; masters differ in anchor coordinates and, in 2 of 3 cases, in their category maps (changed values, key "
+        "absent, fresh map).  Unit streams call _getAnchor/quantize, OpenTypeCategories.load and _getCursiveAnchorPairs directly.  "
         "non-trivial = the font has a class-bearing exported glyph or a caret glyph, and at least one cursive pair.")
 ASSUMED = [
-    "which code points are left-to-right and the set classifyGlyphs(...)['LTR'] are inputs of the model, computed by the harness with ufo2ft.util.classifyGlyphs/unicodeScriptDirection on the compiled cmap and GSUB",
+    "which code points are left-to-right and the set classifyGlyphs(cmap, GSUB)['LTR'] (cmap classification + fontTools' GSUB closure, WITHOUT the designspace rule substitutions) are inputs of the model, computed by the harness with ufo2ft.util.classifyGlyphs/unicodeScriptDirection on the compiled cmap and GSUB; the rule substitutions are taken from the designspace the harness built and applied by the model (applyExtras)",
     "feaLib compiles the emitted GlyphClassDef / LigatureCaretByPos / pos cursive statements faithfully (modelled as fontClasses/fontCarets and compared with the compiled tables on every case, not proved)",
     "the glyph objects of the feature compiler's glyph set carry the UFO glyph's anchors (no anchor-changing filter is generated)",
     "quantisation steps are positive; x/q and x+0.5 are exact in double arithmetic on the generated grids",
-    "static fonts only: the VariableScalar branches of _getAnchor/_getLigatureCarets are not modelled",
+    "static fonts only (single UFOs and the static masters of compileInterpolatable*): the VariableScalar branches of _getAnchor/_getLigatureCarets (variable feature compilation) are not modelled",
+    "a writer instance keeps only its constructor options between two write() calls (model runSeq: the context is rebuilt by setContext and deleted afterwards); measured on every multi-font case, where each font is compared with the model of a fresh build of that font",
 ]
 
 _FINDINGS_FILE = os.path.join(os.path.dirname(os.path.dirname(os.path.dirname(os.path.abspath(__file__)))), "known_findings.json")
@@ -219,6 +228,119 @@ def gen_font(rng, mode, findings):
             "quant": quant, "blocks": blocks, "gsub": gsub, "userCurs": user_curs}
 
 
+LTR_CPS = (0x61, 0x62, 0x63, 0x3B1, 0x915)
+
+
+def _fc(c):
+    return {k: c[k] for k in ("fd", "blocks", "gsub", "userCurs")}
+
+
+def _derive_master(rng, fc, mode):
+    """another master of the same family: same glyphs, anchor names, features; other coordinates and (often) another
+    public.openTypeCategories map"""
+    fc = json.loads(json.dumps(fc))
+    for g in fc["fd"]["glyphs"]:
+        for a in g["anchors"]:
+            if rng.random() < 0.7:
+                a[1] = _coord(rng, mode)
+            if rng.random() < 0.7:
+                a[2] = _coord(rng, mode)
+    lib = fc["fd"]["lib"]
+    names = [g["name"] for g in fc["fd"]["glyphs"]]
+    r = rng.random()
+    if r < 0.35:
+        pass
+    elif r < 0.65:
+        cats = dict(lib.get("public.openTypeCategories", {}))
+        for nm in rng.sample(names + ["ghost"], min(len(names) + 1, rng.choice([1, 1, 2, 3]))):
+            if nm in cats and rng.random() < 0.3:
+                del cats[nm]
+            else:
+                cats[nm] = rng.choice(CATS_OK + CATS_OK + CATS_BAD)
+        lib["public.openTypeCategories"] = cats
+    elif r < 0.8:
+        lib.pop("public.openTypeCategories", None)
+    else:
+        lib["public.openTypeCategories"] = {nm: rng.choice(CATS_OK) for nm in names if rng.random() < 0.6}
+    return fc
+
+
+def _force_rule_alternate(rng, fc):
+    """make the font one in which a designspace rule is the ONLY link between a left-to-right encoded glyph and an
+    unencoded alternate that has cursive anchors of a pair without direction suffix; returns the rule's substitutions"""
+    gl = fc["fd"]["glyphs"]
+    enc = [g for g in gl if g["unicodes"] and g["unicodes"][0] in LTR_CPS]
+    if not enc:
+        nm, u = rng.choice([("a", 0x61), ("b", 0x62), ("alpha", 0x3B1)])
+        if any(g["name"] == nm for g in gl):
+            nm, u = "c", 0x63
+        gl.append({"name": nm, "width": 500, "unicodes": [u], "contours": TRI, "components": [], "anchors": []})
+        enc = [gl[-1]]
+    left = rng.choice(enc)
+    targets = {b for _, b in fc["gsub"]}
+    alts = [g for g in gl if not g["unicodes"] and g["name"] != ".notdef" and g["name"] not in targets]
+    if alts and rng.random() < 0.7:
+        right = rng.choice(alts)
+    else:
+        nm = next(n for n in (left["name"] + ".alt", left["name"] + ".ss01", "x.alt") if not any(g["name"] == n for g in gl))
+        gl.append({"name": nm, "width": 500, "unicodes": [], "contours": TRI, "components": [], "anchors": []})
+        right = gl[-1]
+    sfx = rng.choice(["", "", "", ".1", ".2", ".x_y"])
+    have = {a[0] for g in gl for a in g["anchors"]}
+    sides = rng.choice([["entry"], ["exit"], ["entry", "exit"]])
+    for side in sides:
+        if not any(a[0] == side + sfx for a in right["anchors"]):
+            right["anchors"].append([side + sfx, rng.randrange(-50, 700), rng.randrange(-50, 300)])
+    for side in ("entry", "exit"):      # the pair must be present in the font
+        if side + sfx not in have and not any(a[0] == side + sfx for g in gl for a in g["anchors"]):
+            rng.choice([left, right] + gl)["anchors"].append([side + sfx, rng.randrange(-50, 700), rng.randrange(-50, 300)])
+    lib = fc["fd"]["lib"]
+    if "public.skipExportGlyphs" in lib:
+        lib["public.skipExportGlyphs"] = [n for n in lib["public.skipExportGlyphs"] if n not in (left["name"], right["name"])]
+        if not lib["public.skipExportGlyphs"]:
+            del lib["public.skipExportGlyphs"]
+    if fc["userCurs"] == "plain":
+        fc["userCurs"] = None
+    return [[left["name"], right["name"]]]
+
+
+def gen_multi(rng, mode):
+    via = rng.choice(["seq", "seq", "interp", "ds", "ds"])
+    writers = rng.choice(["instances", "instances", "instances", "gdef-curs-only", "default"])
+    quant = rng.choice([1, 2, 5, 10, 0.5, 4]) if writers == "instances" and rng.random() < 0.2 else None
+    case = {"kind": "multi", "via": via, "otf": via != "interp" and rng.random() < 0.3, "lib": rng.choice(["ufoLib2", "ufoLib2", "defcon"]),
+            "writers": writers, "quant": quant, "rules": [], "dsSkip": None}
+    if via == "seq" and rng.random() < 0.65:
+        # unrelated fonts, compiled one after the other with the same featureWriters list
+        case["fonts"] = [_fc(gen_font(rng, mode, set())) for _ in range(rng.choice([2, 2, 3]))]
+        return case
+    base = _fc(gen_font(rng, mode, set()))
+    if via == "ds":
+        rules = []
+        if rng.random() < 0.75:
+            rules.append(_force_rule_alternate(rng, base))
+        names = [g["name"] for g in base["fd"]["glyphs"] if g["name"] != ".notdef"]
+        for _ in range(rng.choice([0, 0, 1, 2])):     # any other rules: chains, right-to-left sources, unknown names
+            subs = []
+            for _ in range(rng.choice([1, 1, 2])):
+                l, r = rng.choice(names + ["ghost"]), rng.choice(names + ["ghost.alt"])
+                if l != r:
+                    subs.append([l, r])
+            if subs:
+                rules.insert(rng.randrange(len(rules) + 1), subs)
+        case["rules"] = rules
+        skip = base["fd"]["lib"].get("public.skipExportGlyphs")
+        case["dsSkip"] = list(skip) if skip and rng.random() < 0.8 else None
+    n = rng.choice([1, 2, 2, 2, 3]) if via == "ds" else rng.choice([2, 2, 3])
+    fonts = [base]
+    while len(fonts) < n:
+        fonts.append(_derive_master(rng, fonts[rng.randrange(len(fonts))] if rng.random() < 0.3 else base, mode))
+    if rng.random() < 0.3:
+        rng.shuffle(fonts)
+    case["fonts"] = fonts
+    return case
+
+
 def gen(rng, n, mode):
     findings = enabled_findings()
     # fixed witnesses of the branches first
@@ -226,6 +348,8 @@ def gen(rng, n, mode):
         yield c
     for i in range(n):
         yield gen_font(rng, mode, findings)
+    for i in range(max(40, n // 6)):
+        yield gen_multi(rng, mode)
     for i in range(max(20, n // 6)):
         anchors = [[rng.choice(["entry", "exit", "caret_1", "top", "", None] if i % 7 == 0 else ["entry", "exit", "caret_1", "top", ""]),
                     _coord(rng, "search" if i % 2 else mode), _coord(rng, mode)] for _ in range(rng.choice([0, 1, 2, 3, 4]))]
@@ -273,6 +397,21 @@ def witnesses(findings):
                            {"classdef": [["period"], [], [], []], "carets": None, "caretKind": None}])
     if "same-named-caret-anchors-collapse-to-first" in findings:
         yield dict(base, fd={"glyphs": [_g("f_i", [("caret_1", 100, 0), ("caret_1", 200, 0)])], "lib": {}})
+    # the same writer instances for several fonts; designspace rules as the only link to a left-to-right glyph
+    multi = {"kind": "multi", "otf": False, "lib": "ufoLib2", "writers": "instances", "quant": None, "rules": [], "dsSkip": None}
+    plain = {"blocks": [], "gsub": [], "userCurs": None}
+    cats2 = {"a": "ligature", "f_i": "base", "x": "base", "alef-ar": "mark", "period": "component"}
+    yield dict(multi, via="seq", fonts=[dict(plain, fd={"glyphs": mixed, "lib": {"public.openTypeCategories": cats}}),
+                                        dict(plain, fd={"glyphs": mixed, "lib": {"public.openTypeCategories": cats2}}),
+                                        dict(plain, fd={"glyphs": mixed[:3], "lib": {}})])
+    yield dict(multi, via="interp", writers="gdef-curs-only",
+               fonts=[dict(plain, fd={"glyphs": mixed, "lib": {}}),
+                      dict(plain, fd={"glyphs": mixed, "lib": {"public.openTypeCategories": cats2}}),
+                      dict(plain, fd={"glyphs": mixed, "lib": {"public.openTypeCategories": cats}})])
+    ruled = mixed + [_g("y", [("entry", 3, 3), ("exit.1", 8, 8)]), _g("z", [("exit", 4, 4)])]
+    yield dict(multi, via="ds", otf=True, writers="default", rules=[[["b", "y"], ["y", "z"]], [["beh-ar", "x"]]],
+               fonts=[dict(plain, fd={"glyphs": ruled, "lib": {"public.openTypeCategories": cats}}),
+                      dict(plain, fd={"glyphs": ruled, "lib": {"public.openTypeCategories": cats}})])
     # unnamed anchors are ordinary input: the reproducer of the repaired crash and a mixed font
     yield dict(base, fd={"glyphs": [_g("a", [(None, 100, 0)], 0x61)], "lib": {}})
     yield dict(base, fd={"glyphs": [_g("a", [(None, 1, 1), ("entry", 10.5, 0), (None, 2, 2)], 0x61), _g("b", [("exit", 3, 4), (None, 5, 5)], 0x62),
@@ -317,30 +456,25 @@ def _writers(quant):
     return [QCurs(quantization=quant), KernFeatureWriter, MarkFeatureWriter, QGdef(quantization=quant)]
 
 
-def _run_font(case):
-    import logging
-    logging.disable(logging.CRITICAL)
-    from fontTools.ttLib import TTFont
-    fd = case["fd"]
-    skip = set(fd.get("lib", {}).get("public.skipExportGlyphs", []))
+def _skip_of(fc):
+    return list(fc["fd"].get("lib", {}).get("public.skipExportGlyphs", []))
+
+
+def _prepare(fc, lib, skip):
+    """the UFO of one font description (`fc` = {fd, blocks, gsub, userCurs}); skip = the glyphs the build will not export"""
+    fd = fc["fd"]
     names = [g["name"] for g in fd["glyphs"]]
     exported = [n for n in names if n not in skip]
-    text, n_user = _features_text(case, exported)
+    text, n_user = _features_text(fc, exported)
     fd = dict(fd, features=text)
-    font = build(fd, case["lib"])
+    return build(fd, lib), fd, exported, n_user
+
+
+def _observe(fc, fd, exported, n_user, tt, fea_text, err, quant, extras, tags):
+    """one "font" request: the model input taken from the UFO description, the observation from the compiled font
+    `tt` (already saved and re-read) and from the final feature text"""
+    skip = [g["name"] for g in fd["glyphs"] if g["name"] not in exported]
     src = {g["name"]: g for g in fd["glyphs"]}
-    dbg = io.StringIO()
-    err = None
-    try:
-        import ufo2ft
-        kw = dict(featureWriters=_writers(case["quant"]), debugFeatureFile=dbg)
-        tt = ufo2ft.compileOTF(font, optimizeCFF=0, **kw) if case["otf"] else ufo2ft.compileTTF(font, **kw)
-        buf = io.BytesIO()
-        tt.save(buf)
-        tt = TTFont(io.BytesIO(buf.getvalue()))
-    except Exception as e:
-        err = err_kind(e)
-        tt = None
     order = tt.getGlyphOrder() if tt is not None else exported
     glyphs = [[n, [[a[0], rat(a[1]), rat(a[2])] for a in src[n]["anchors"]] if n in src else []] for n in order]
     cats = fd.get("lib", {}).get("public.openTypeCategories", {})
@@ -350,30 +484,34 @@ def _run_font(case):
         cmap = tt.getBestCmap() or {}
         any_ltr = any(unicodeScriptDirection(uv) == "LTR" for uv in cmap)
         if any_ltr:
+            # cmap classification + GSUB closure only: the designspace rule substitutions are applied by the model
             d = classifyGlyphs(unicodeScriptDirection, cmap, tt.get("GSUB"))
             ltr = sorted(d["LTR"]) if "LTR" in d else None
     ucls, ucar = [], []
-    for b in case["blocks"]:
+    for b in fc["blocks"]:
         if b["classdef"] is not None:
             for code, gl in zip((1, 2, 3, 4), b["classdef"]):
                 ucls += [[g, code] for g in gl]
         if b["carets"] is not None:
             ucar += [[g, [v + (100000 if b["caretKind"] == "index" else 0) for v in vals]] for g, vals in b["carets"]]
     inp = {"glyphs": glyphs, "categories": [[k, v] for k, v in cats.items()],
-           "blocks": [[b["classdef"] is not None, b["carets"] is not None] for b in case["blocks"]],
+           "blocks": [[b["classdef"] is not None, b["carets"] is not None] for b in fc["blocks"]],
            "userClasses": sorted(ucls), "userCarets": sorted(ucar),
-           "quant": None if case["quant"] is None else rat(case["quant"]), "anyLtrCp": any_ltr, "ltr": ltr,
-           "cursTodo": case["userCurs"] != "plain"}
-    tags = ["otf" if case["otf"] else "ttf", case["lib"], "quant" if case["quant"] is not None else "noquant",
-            "userblocks:%d" % len(case["blocks"]), "usercurs:%s" % case["userCurs"], "skip" if skip else "noskip"]
+           "quant": None if quant is None else rat(quant), "anyLtrCp": any_ltr, "ltr": ltr,
+           "extras": [list(e) for e in extras], "cursTodo": fc["userCurs"] != "plain"}
+    tags = list(tags) + ["quant" if quant is not None else "noquant", "userblocks:%d" % len(fc["blocks"]),
+                         "usercurs:%s" % fc["userCurs"], "skip" if skip else "noskip"]
     if err is None:
-        cd, carets, problems = L.fea_gdef(dbg.getvalue(), order, n_user)
+        try:
+            cd, carets, problems = L.fea_gdef(fea_text, order, n_user)
+        except Exception as e:      # the final feature text must be parseable
+            cd, carets, problems = None, None, ["feature text: " + err_kind(e)]
         if carets is not None and any(not isinstance(v, int) for _, vs in carets for v in vs):
             problems.append("non-integer caret in feature text")
         if problems:
             err = "Malformed:" + problems[0]
     if err is not None:
-        return [{"op": "font", "in": inp, "obs": {"err": err}, "tags": tags + ["err:" + err], "nontrivial": True}]
+        return {"op": "font", "in": inp, "obs": {"err": err}, "tags": tags + ["err:" + err], "nontrivial": True}
     lookups = [l for l in L.font_cursive(tt) if not L.is_user_lookup(l[1])]
     obs = {"err": None, "fea": {"classDef": cd, "carets": carets},
            "font": {"classes": L.font_classes(tt), "carets": L.font_carets(tt)},
@@ -399,8 +537,160 @@ def _run_font(case):
             tags.append("pair-suffix:" + s)
     if ltr and any(n not in ltr for n, al in glyphs if any(a[0] in ("entry", "exit") for a in al)):
         tags.append("mixed-direction")
+    if ltr is not None and extras:
+        # a glyph with cursive anchors that is left-to-right ONLY because a designspace rule substitutes it for one
+        by_rule = {r for l, r in extras if l in ltr and r not in ltr}
+        if any(n in by_rule and any(a[0] and (a[0] == "entry" or a[0] == "exit" or a[0].startswith(("entry.", "exit.")))
+                                    for a in al) for n, al in glyphs):
+            tags.append("ltr-by-rule-only")
     nontrivial = bool(lookups) and (bool(carets) or (cd is not None and any(cd)))
-    return [{"op": "font", "in": inp, "obs": obs, "tags": sorted(set(tags)), "nontrivial": nontrivial}]
+    return {"op": "font", "in": inp, "obs": obs, "tags": sorted(set(tags)), "nontrivial": nontrivial}
+
+
+def _reread(tt):
+    from fontTools.ttLib import TTFont
+    buf = io.BytesIO()
+    tt.save(buf)
+    return TTFont(io.BytesIO(buf.getvalue()))
+
+
+def _run_font(case):
+    import logging
+    logging.disable(logging.CRITICAL)
+    skip = _skip_of(case)
+    font, fd, exported, n_user = _prepare(case, case["lib"], skip)
+    dbg = io.StringIO()
+    err, tt = None, None
+    try:
+        import ufo2ft
+        kw = dict(featureWriters=_writers(case["quant"]), debugFeatureFile=dbg)
+        tt = ufo2ft.compileOTF(font, optimizeCFF=0, **kw) if case["otf"] else ufo2ft.compileTTF(font, **kw)
+        tt = _reread(tt)
+    except Exception as e:
+        err = err_kind(e)
+        tt = None
+    tags = ["otf" if case["otf"] else "ttf", case["lib"]]
+    return [_observe(case, fd, exported, n_user, tt, dbg.getvalue(), err, case["quant"], [], tags)]
+
+
+# ---- several fonts through the same compile call / the same writer instances
+
+def _writer_instances(mode, quant):
+    """None (ufo2ft's defaults, instantiated afresh for every font) or a list of ready-made INSTANCES, which ufo2ft
+    uses as they are for every font they are passed with"""
+    if mode == "default":
+        return None
+    from ufo2ft.featureWriters import CursFeatureWriter, GdefFeatureWriter, KernFeatureWriter, MarkFeatureWriter
+    if quant is not None:
+        class QCurs(CursFeatureWriter):
+            options = dict(quantization=1)
+
+        class QGdef(GdefFeatureWriter):
+            options = dict(quantization=1)
+        return [QCurs(quantization=quant), KernFeatureWriter(), MarkFeatureWriter(), QGdef(quantization=quant)]
+    ws = [CursFeatureWriter(), KernFeatureWriter(), MarkFeatureWriter(), GdefFeatureWriter()]
+    return ws[-1:] + ws[:1] if mode == "gdef-curs-only" else ws
+
+
+def _split_debug(text, n):
+    """compileInterpolatable* writes `### family-style ###` before each master's feature text"""
+    import re
+    parts = re.split(r"(?m)^### .* ###$", text)
+    return parts[1:] if len(parts) == n + 1 else None
+
+
+def _designspace(ufos, rules):
+    from fontTools.designspaceLib import AxisDescriptor, DesignSpaceDocument, RuleDescriptor, SourceDescriptor
+    ds = DesignSpaceDocument()
+    ax = AxisDescriptor()
+    ax.name, ax.tag = "Weight", "wght"
+    ax.minimum, ax.default, ax.maximum = 100, 100, 100 + 100 * max(1, len(ufos) - 1)
+    ds.addAxis(ax)
+    for k, u in enumerate(ufos):
+        sd = SourceDescriptor()
+        sd.name = "master%d" % k
+        sd.font = u
+        sd.familyName, sd.styleName = "C18", "M%d" % k
+        sd.location = {"Weight": 100 + 100 * k}
+        ds.addSource(sd)
+    for k, subs in enumerate(rules):
+        rd = RuleDescriptor()
+        rd.name = "rule%d" % k
+        rd.conditionSets = [[{"name": "Weight", "minimum": 150, "maximum": ax.maximum}]]
+        rd.subs = [tuple(p) for p in subs]
+        ds.addRule(rd)
+    return ds
+
+
+def _run_multi(case):
+    """via = "seq": one compileTTF/OTF call per font, all with the SAME featureWriters list;
+    "interp": compileInterpolatableTTFs/OTFs(ufos, featureWriters=...); "ds": compileInterpolatable*FromDS on a
+    designspace whose <rule> substitutions reach the writers as compiler.extraSubstitutions"""
+    import logging
+    logging.disable(logging.CRITICAL)
+    import ufo2ft
+    via, fonts = case["via"], case["fonts"]
+    otf = case["otf"] and via != "interp"       # there is no compileInterpolatableOTFs
+    quant = case["quant"] if case["writers"] == "instances" else None
+    writers = _writer_instances(case["writers"], quant)
+    rules = case["rules"] if via == "ds" else []
+    extras = [p for subs in rules for p in subs]
+    if via == "seq":
+        skips = [_skip_of(fc) for fc in fonts]
+    elif via == "interp":      # union of the masters' lib keys
+        u = []
+        for fc in fonts:
+            u += [n for n in _skip_of(fc) if n not in u]
+        skips = [u] * len(fonts)
+    else:                      # the designspace's lib key; the masters' keys are ignored
+        skips = [list(case.get("dsSkip") or [])] * len(fonts)
+    prep = [_prepare(fc, case["lib"], sk) for fc, sk in zip(fonts, skips)]
+    for k, (u, _, _, _) in enumerate(prep):
+        u.info.familyName, u.info.styleName = "C18", "M%d" % k
+    tts, texts, errs = [None] * len(fonts), [""] * len(fonts), [None] * len(fonts)
+    if via == "seq":
+        for k, (u, _, _, _) in enumerate(prep):
+            dbg = io.StringIO()
+            try:
+                kw = dict(featureWriters=writers, debugFeatureFile=dbg)
+                tts[k] = _reread(ufo2ft.compileOTF(u, optimizeCFF=0, **kw) if otf else ufo2ft.compileTTF(u, **kw))
+            except Exception as e:
+                errs[k] = err_kind(e)
+            texts[k] = dbg.getvalue()
+    else:
+        dbg = io.StringIO()
+        try:
+            kw = dict(featureWriters=writers, debugFeatureFile=dbg)
+            ufos = [u for u, _, _, _ in prep]
+            if via == "interp":
+                out = list(ufo2ft.compileInterpolatableTTFs(ufos, **kw))
+            else:
+                ds = _designspace(ufos, rules)
+                if case.get("dsSkip") is not None:
+                    ds.lib["public.skipExportGlyphs"] = list(case["dsSkip"])
+                res = (ufo2ft.compileInterpolatableOTFsFromDS if otf else ufo2ft.compileInterpolatableTTFsFromDS)(ds, **kw)
+                out = [s.font for s in res.sources]
+            tts = [_reread(t) for t in out]
+            parts = _split_debug(dbg.getvalue(), len(fonts))
+            if parts is None:
+                errs = ["Malformed:debug feature file not one section per master"] * len(fonts)
+            else:
+                texts = parts
+        except Exception as e:
+            errs = [err_kind(e)] * len(fonts)
+            tts = [None] * len(fonts)
+    reqs = []
+    for k, (fc, (_, fd, exported, n_user)) in enumerate(zip(fonts, prep)):
+        tags = ["multi", "via:" + via, "writers:" + case["writers"], "otf" if otf else "ttf", case["lib"],
+                "font#%d" % min(k, 3)]
+        if k > 0 and fc["fd"].get("lib", {}).get("public.openTypeCategories") != \
+                fonts[k - 1]["fd"].get("lib", {}).get("public.openTypeCategories"):
+            tags.append("categories-differ-from-previous-font")
+        if extras:
+            tags.append("ds-rules")
+        reqs.append(_observe(fc, fd, exported, n_user, tts[k] if errs[k] is None else None, texts[k], errs[k], quant,
+                             extras, tags))
+    return reqs
 
 
 class _A:
@@ -461,6 +751,8 @@ def run(case):
     k = case["kind"]
     if k == "font":
         return _run_font(case)
+    if k == "multi":
+        return _run_multi(case)
     if k == "anchor":
         return _run_anchor(case)
     if k == "cats":
@@ -531,7 +823,79 @@ def classify_failure(res):
     return None
 
 
+def _shrink_fc(fc, keep=(), glyph_removal=True):
+    """smaller versions of one font description (a "font" case itself, or one font of a "multi" case)"""
+    fd = fc["fd"]
+    gl = fd["glyphs"]
+    used = {n for b in fc["blocks"] for c in (b["classdef"] or []) for n in c} | \
+           {g for b in fc["blocks"] for g, _ in (b["carets"] or [])} | {n for p in fc["gsub"] for n in p} | set(keep)
+    for key in ("gsub", "blocks"):
+        if fc[key]:
+            yield dict(fc, **{key: []})
+    if fc["userCurs"]:
+        yield dict(fc, userCurs=None)
+    if glyph_removal:
+        for i, g in enumerate(gl):
+            if g["name"] not in used and len(gl) > 1 and (i > 0 or fc["userCurs"] is None and not fc["blocks"]):
+                yield dict(fc, fd=dict(fd, glyphs=gl[:i] + gl[i + 1:]))
+    lib = fd.get("lib", {})
+    for k in list(lib):
+        yield dict(fc, fd=dict(fd, lib={a: b for a, b in lib.items() if a != k}))
+    cats = lib.get("public.openTypeCategories", {})
+    for k in list(cats):
+        yield dict(fc, fd=dict(fd, lib=dict(lib, **{"public.openTypeCategories": {a: b for a, b in cats.items() if a != k}})))
+    for i, g in enumerate(gl):
+        for j in range(len(g["anchors"])):
+            g2 = dict(g, anchors=g["anchors"][:j] + g["anchors"][j + 1:])
+            yield dict(fc, fd=dict(fd, glyphs=gl[:i] + [g2] + gl[i + 1:]))
+    if fd.get("glyphOrder"):
+        yield dict(fc, fd=dict(fd, glyphOrder=None))
+
+
+def _shrink_multi(case):
+    fonts = case["fonts"]
+    if case["rules"]:
+        yield dict(case, rules=[])
+        for i in range(len(case["rules"])):
+            yield dict(case, rules=case["rules"][:i] + case["rules"][i + 1:])
+        for i, subs in enumerate(case["rules"]):
+            for j in range(len(subs)):
+                if len(subs) > 1:
+                    yield dict(case, rules=case["rules"][:i] + [subs[:j] + subs[j + 1:]] + case["rules"][i + 1:])
+    for k in range(len(fonts) - 1, -1, -1):
+        if len(fonts) > 1:
+            yield dict(case, fonts=fonts[:k] + fonts[k + 1:])
+    if case["quant"] is not None:
+        yield dict(case, quant=None)
+    if case.get("dsSkip"):
+        yield dict(case, dsSkip=None)
+    keep = {n for subs in case["rules"] for p in subs for n in p}
+    same_glyphs = case["via"] != "seq"
+    if same_glyphs:
+        # masters of one compile call keep the same glyph set: a glyph is removed from all of them at once
+        common = [g["name"] for g in fonts[0]["fd"]["glyphs"]]
+        for i, nm in enumerate(common):
+            if i == 0 or nm in keep:
+                continue
+            if any(nm in {n for b in fc["blocks"] for c in (b["classdef"] or []) for n in c} |
+                   {g for b in fc["blocks"] for g, _ in (b["carets"] or [])} | {n for p in fc["gsub"] for n in p} for fc in fonts):
+                continue
+            yield dict(case, fonts=[dict(fc, fd=dict(fc["fd"], glyphs=[g for g in fc["fd"]["glyphs"] if g["name"] != nm]))
+                                    for fc in fonts])
+        for key in ("gsub", "blocks"):
+            if any(fc[key] for fc in fonts):
+                yield dict(case, fonts=[dict(fc, **{key: []}) for fc in fonts])
+    for k, fc in enumerate(fonts):
+        for c in _shrink_fc(fc, keep, glyph_removal=not same_glyphs):
+            if same_glyphs and (c["gsub"] != fc["gsub"] or c["blocks"] != fc["blocks"]):
+                continue
+            yield dict(case, fonts=fonts[:k] + [c] + fonts[k + 1:])
+
+
 def shrink(case):
+    if case["kind"] == "multi":
+        yield from _shrink_multi(case)
+        return
     if case["kind"] != "font":
         if case["kind"] == "anchor":
             for i in range(len(case["anchors"])):
@@ -543,32 +907,9 @@ def shrink(case):
             for i in range(len(case["categories"])):
                 yield dict(case, categories=case["categories"][:i] + case["categories"][i + 1:])
         return
-    fd = case["fd"]
-    gl = fd["glyphs"]
-    used = {n for b in case["blocks"] for c in (b["classdef"] or []) for n in c} | \
-           {g for b in case["blocks"] for g, _ in (b["carets"] or [])} | {n for p in case["gsub"] for n in p}
-    for key in ("gsub", "blocks"):
-        if case[key]:
-            yield dict(case, **{key: []})
-    if case["userCurs"]:
-        yield dict(case, userCurs=None)
     if case["quant"] is not None:
         yield dict(case, quant=None)
-    for i, g in enumerate(gl):
-        if g["name"] not in used and len(gl) > 1 and (i > 0 or case["userCurs"] is None and not case["blocks"]):
-            yield dict(case, fd=dict(fd, glyphs=gl[:i] + gl[i + 1:]))
-    lib = fd.get("lib", {})
-    for k in list(lib):
-        yield dict(case, fd=dict(fd, lib={a: b for a, b in lib.items() if a != k}))
-    cats = lib.get("public.openTypeCategories", {})
-    for k in list(cats):
-        yield dict(case, fd=dict(fd, lib=dict(lib, **{"public.openTypeCategories": {a: b for a, b in cats.items() if a != k}})))
-    for i, g in enumerate(gl):
-        for j in range(len(g["anchors"])):
-            g2 = dict(g, anchors=g["anchors"][:j] + g["anchors"][j + 1:])
-            yield dict(case, fd=dict(fd, glyphs=gl[:i] + [g2] + gl[i + 1:]))
-    if fd.get("glyphOrder"):
-        yield dict(case, fd=dict(fd, glyphOrder=None))
+    yield from _shrink_fc(case)
 
 
 LEVEL_TEXT = ("Proved for all inputs (Lean, unbounded glyph sets / anchor lists / category maps): the GlyphClassDef the GDEF writer emits "
@@ -577,11 +918,19 @@ LEVEL_TEXT = ("Proved for all inputs (Lean, unbounded glyph sets / anchor lists 
               "of every glyph is the code of its category; each caret list is increasing and has exactly the otRound(quantize(.)) values of "
               "the glyph's caret_/vcaret_ anchors (strictly increasing in the compiled font); every glyph with an entry or exit anchor of a "
               "present pair has its record with exactly the rounded coordinates and NULL for the missing side, in a lookup whose RightToLeft "
-              "flag follows the suffix/LTR-set rule, with no other records and one record per (pair, glyph); quantize returns the nearest "
-              "multiple (ties up).  Tied to the code by random fonts compiled end to end and read back from GDEF/GPOS and the feature text.")
+              "flag follows the suffix/LTR rule, where a glyph is left-to-right iff it is in the GSUB-closed left-to-right set or a designspace "
+              "rule substitutes it for a glyph of that set (one step; C18_ltr_extras, C18_curs_flag), with no other records and one record per "
+              "(pair, glyph); writer instances used for a sequence of fonts give every font the output of a fresh build of that font "
+              "(C18_seq, C18_seq_independent); quantize returns the nearest multiple (ties up).  Tied to the code by random fonts compiled "
+              "end to end (single UFOs, sequences sharing writer instances, interpolatable masters, designspaces with rules) and read back "
+              "from GDEF/GPOS and the feature text.")
 LEVEL_NOTE = ("Trusted: Lean kernel + standard axioms; the correspondence harness and fontTools' decompilers/feaLib parser; direction data "
-              "(LTR code points, GSUB closure) is an input taken from ufo2ft's own classifyGlyphs; feaLib's compilation of the emitted "
-              "statements is modelled and measured, not proved; variable-font (designspace) branches are not modelled.  Two input shapes on "
+              "(LTR code points, GSUB closure) is an input taken from ufo2ft's own classifyGlyphs called without rule substitutions - the "
+              "rule step itself is modelled and proved; feaLib's compilation of the emitted statements is modelled and measured, not proved; "
+              "only static compilation is modelled (single UFOs and the per-master fonts of compileInterpolatable*; the variable-feature "
+              "branches with VariableScalar anchors are not).  That a writer instance carries nothing but its options from one write() to "
+              "the next is the model's reading of BaseFeatureWriter.write (runSeq) and is measured, per font, on every multi-font case; "
+              "a state leak that does not reach GDEF classes, carets or cursive lookups would not be seen.  Two input shapes on "
               "which the code departs from the property are theorem hypotheses (distinct caret anchor names, at most one user GDEF block) "
               "and are known findings; a third (an unnamed anchor crashed the curs writer) was repaired in ufo2ft 87dd8ed and is an ordinary "
               "input now (theorem C18_unnamed_anchor_ignored).")
